@@ -237,18 +237,33 @@ func TestVerifC09Span(t *testing.T) {
 			}
 			now = now.Add(adv)
 			frozen, _ := os.ReadFile(curPath)
+			firedTimer := false
 			if !callRotate {
 				// nothing: the process keeps running
 			} else if useTimer && len(timers) > 0 && !now.Before(curEnd) && rapid.Bool().Draw(t, "fireTimer") {
 				tm := timers[len(timers)-1]
 				timers = timers[:len(timers)-1]
 				tm.f()
+				firedTimer = true
 			} else {
 				f.rotate1()
 			}
 			m2 := f.current.Load()
 			if m2 == nil {
 				t.Fatalf("%s: rotation at %s closed the file: %v", desc, now.Format(time.RFC3339Nano), f.err)
+			}
+			if firedTimer {
+				// a rotation driven by the timer arms the timer for the next recorded end: the process rotates
+				// week after week without anybody calling it
+				_, e3, _ := c09ReadMeta(t, m2.f.Name())
+				want := e3.Sub(now)
+				if want < time.Minute {
+					want = time.Minute
+				}
+				if len(timers) != 1 || timers[0].d != want {
+					t.Fatalf("%s: after the rotation timer fired at %s, pending timers = %d (%v), want exactly one with delay %v (next end %s)", desc, now.Format(time.RFC3339Nano), len(timers), timers, want, e3.Format(time.RFC3339))
+				}
+				vstats.Label("timerRearmed")
 			}
 			expectNew := !now.Before(curEnd)
 			if expectNew && m2.f.Name() == curPath {
